@@ -615,9 +615,7 @@ def install(lib):
             if hasattr(t0, "local_class"):
                 r.local_class = t0.local_class
             return r
-        for t in trees[1:]:
-            if t is None:
-                raise RaiseEx("ValueError", msg="tree structure mismatch (None vs leaf)")
+        # at a leaf of the first tree the other trees are taken as they are (flatten_up_to), including None
         return ex.call(f, list(trees), {})
 
     def tree_map(ex, f, *trees, is_leaf=None):
@@ -628,7 +626,20 @@ def install(lib):
         used(ex, "jax.tree_util.tree_leaves flattens a pytree in a fixed order")
         return tree_leaves_of(x)
 
-    tree_util = NS("jax.tree_util", {"tree_map": tree_map, "tree_leaves": tree_leaves})
+    def tree_reduce(ex, f, tree, *init):
+        used(ex, "jax.tree_util.tree_reduce folds f over the leaves in order")
+        leaves = tree_leaves_of(tree)
+        if init:
+            acc = init[0]
+        elif leaves:
+            acc, leaves = leaves[0], leaves[1:]
+        else:
+            raise RaiseEx("TypeError", msg="reduce of empty tree")
+        for l in leaves:
+            acc = ex.call(f, [acc, l], {})
+        return acc
+
+    tree_util = NS("jax.tree_util", {"tree_map": tree_map, "tree_leaves": tree_leaves, "tree_reduce": tree_reduce})
 
     def lax_cond(ex, pred, tf, ff, *ops):
         used(ex, "jax.lax.cond(p, f, g, *ops) evaluates exactly one branch: f(*ops) if p else g(*ops) (un-vmapped)")
@@ -654,6 +665,7 @@ def install(lib):
     rnd = NS("jax.random", {})
     jaxns = NS("jax", {"tree_util": tree_util, "lax": lax, "numpy": jnp, "random": rnd, "Array": TypeTag("jax.Array"),
                        "tree_map": tree_map, "tree_leaves": tree_leaves})
+    jaxns.entries["errors"] = NS("jax.errors", {"TracerArrayConversionError": TypeTag("TracerArrayConversionError")})
     lib.ns["jax"] = jaxns
     lib.ns["jax.tree_util"] = tree_util
     lib.ns["jax.lax"] = lax
@@ -668,7 +680,7 @@ def install(lib):
 
     lib.ns["time"] = NS("time", {"time": time_time, "sleep": lambda ex, s: None})
     lib.ns["distrax"] = NS("distrax", {"Distribution": TypeTag("distrax.Distribution")})
-    def eqx_tree_at(ex, where, tree, replace):
+    def eqx_tree_at(ex, where, tree, replace, is_leaf=None):
         """functional update of the sub-tree selected by `where` (a lambda made of attribute / constant-subscript accesses)"""
         used(ex, "equinox.tree_at(where, tree, replace) returns a copy of tree whose node selected by `where` is `replace`")
         if not isinstance(where, Closure) or not isinstance(where.node, ast.Lambda):
